@@ -98,6 +98,14 @@ struct GenResult {
     int32_t gen_expand_kind; // the generator's own view of the form: 0 no second word, 1 any second word, 2 a data address as second word
 };
 
+// the entry of the interpreter's own 65536-entry dispatch table for one word
+struct DispatchInfo {
+    char name[48];
+    uint16_t mask, expected;
+    int32_t need_expansion;
+    int32_t matches; // the entry's matcher accepts the word
+};
+
 // The API every glue library exports
 struct GlueApi {
     int (*abi_version)();
@@ -117,6 +125,7 @@ struct GlueApi {
     // raw data memory access (word address in data space, bank 0/1 flattened to 0..0x1FFFF)
     uint16_t (*peek_data)(void* m, uint32_t addr);
     void (*poke_data)(void* m, uint32_t addr, uint16_t v);
+    void (*dispatch)(void* m, uint16_t opcode, struct DispatchInfo* out);
 };
 const struct GlueApi* verif_glue_api();
 }
